@@ -3,6 +3,7 @@ import DimodProofs.MultComplete
 import DimodProofs.RandomGen
 import DimodProofs.GenProofs2
 import DimodProofs.GenProofs3
+import DimodModel.GenTables
 
 /-! # C17 — problem generators encode exactly the relation they document
 
@@ -891,5 +892,35 @@ example : LoopsOK [([.str "a", .str "b", .str "c"], some 1), ([.int 0, .int 1, .
 example : (chimeraAnticluster 1 2 1 3 none [0, 1, 1]).map List.length = some 7 := by decide +kernel
 example : (mimoBpsk 2 [1, 2] [[1, -1], [1, 1]]).isSome = true := by decide +kernel
 example : (mulCircuitBag 3 1).isSome = true := by decide +kernel
+
+/-! ## complete coefficient tables regenerated from the source (`Generated/GenTables.lean`, kernel evaluation)
+
+A change of a constant of `combinations`, of the wiring / naming of `multiplication_circuit` or of an anti-crossing generator
+changes the regenerated tables and breaks these theorems; the harness then searches for a concrete failing input. -/
+
+open Generated.GenTables in
+set_option maxRecDepth 100000 in
+/-- `combinations(n, k, strength, vartype)` for `n ≤ 4`, every `k ≤ n`, strength 1 and 3/2, both vartypes: the model
+    (`triu(qbias) + diag(lbias)`, offset `strength·k²`, `change_vartype`) has exactly the coefficients of the real return value -/
+theorem combinations_matches_generated_tables : combTables.all combRowOK = true := by decide +kernel
+
+open Generated.GenTables in
+set_option maxRecDepth 100000 in
+/-- `multiplication_circuit(n, m)` for the sizes (1,1) … (3,3): wiring, wire names and gate tables give exactly the real model -/
+theorem multiplication_circuit_matches_generated_tables : multTables.all multRowOK = true := by decide +kernel
+
+open Generated.GenTables in
+set_option maxRecDepth 100000 in
+/-- `anti_crossing_clique(6 … 12)`: the model has exactly the coefficients of the real return value -/
+theorem anti_crossing_clique_matches_generated_tables : acCliqueTables.all acCliqueRowOK = true := by decide +kernel
+
+open Generated.GenTables in
+set_option maxRecDepth 100000 in
+/-- `anti_crossing_loops(8 … 20)` (including the single-edge loops of `num_variables = 8`, where `set_quadratic` writes the
+    same interaction twice): the model has exactly the coefficients of the real return value -/
+theorem anti_crossing_loops_matches_generated_tables : acLoopsTables.all acLoopsRowOK = true := by decide +kernel
+
+example : Generated.GenTables.combTables.length = 60 ∧ Generated.GenTables.multTables.length = 8
+    ∧ Generated.GenTables.acCliqueTables.length = 4 ∧ Generated.GenTables.acLoopsTables.length = 4 := by decide +kernel
 
 end C17
